@@ -255,6 +255,7 @@ def task_mutations(t):
     """t = list of (label, state, then, hex)"""
     out = []
     n = 0
+    ndied = 0
     arena = None
     for label, state, then, hx in t:
         case = {'step': [label, state, then, hx]}
@@ -273,6 +274,9 @@ def task_mutations(t):
             out.append(crash_violation(e, case))
             worker_bus().h.close()
             arena = None
+            ndied += 1
+            if ndied >= 2:
+                break          # a bus that hangs costs a harness time-out per step: two of them are evidence enough for one task
     byfp = {}
     for v in out:
         byfp.setdefault(v.fingerprint, []).append(v)
